@@ -211,6 +211,8 @@ struct SubAcc {
     cases: u64,
     nontrivial_cases: u64,
     keys: HashSet<u64>,
+    /// non-trivial cases that are distinct by construction (exhaustive enumerators): counted, not hashed
+    distinct_by_construction: u64,
     classes: BTreeMap<&'static str, u64>,
     samples_trivial: Vec<Value>,
     samples_nontrivial: Vec<Value>,
@@ -226,6 +228,7 @@ impl SubAcc {
         self.cases += o.cases;
         self.nontrivial_cases += o.nontrivial_cases;
         self.keys.extend(o.keys);
+        self.distinct_by_construction += o.distinct_by_construction;
         for (k, v) in o.classes {
             *self.classes.entry(k).or_insert(0) += v;
         }
@@ -296,6 +299,22 @@ impl Acc {
             a.nontrivial_cases += 1;
             let fresh = a.keys.insert(key);
             if fresh && a.samples_nontrivial.len() < 2 {
+                a.samples_nontrivial.push(trim_sample(sample()));
+            }
+        } else if a.samples_trivial.is_empty() {
+            a.samples_trivial.push(trim_sample(sample()));
+        }
+    }
+    /// For exhaustive enumerators: every enumerated case is distinct by construction, so distinct
+    /// non-trivial cases are counted without keeping a hash set of hundreds of millions of keys.
+    pub fn pass_enum(&mut self, nontrivial: bool, sample: impl FnOnce() -> Value) {
+        let a = &mut self.inner;
+        a.cases += 1;
+        a.evaluations += 1;
+        if nontrivial {
+            a.nontrivial_cases += 1;
+            a.distinct_by_construction += 1;
+            if a.samples_nontrivial.len() < 2 {
                 a.samples_nontrivial.push(trim_sample(sample()));
             }
         } else if a.samples_trivial.is_empty() {
@@ -855,9 +874,11 @@ impl Ctx {
         let mut samples: Vec<Value> = vec![];
         let mut per_sub = serde_json::Map::new();
         let mut any_exh = false;
+        let mut by_construction = 0u64;
         for name in order.iter() {
             let a = &subs[name];
             evaluations += a.evaluations;
+            by_construction += a.distinct_by_construction;
             for k in &a.keys {
                 all_keys.insert(mix_str(*k, name));
             }
@@ -871,7 +892,7 @@ impl Ctx {
             o.insert("cases".into(), json!(a.cases));
             o.insert("evaluations".into(), json!(a.evaluations));
             o.insert("nontrivial_cases".into(), json!(a.nontrivial_cases));
-            o.insert("distinct_nontrivial".into(), json!(a.keys.len()));
+            o.insert("distinct_nontrivial".into(), json!(a.keys.len() as u64 + a.distinct_by_construction));
             o.insert("classes".into(), json!(a.classes));
             if !a.known_hits.is_empty() {
                 o.insert("known_findings_hit".into(), json!(a.known_hits));
@@ -894,7 +915,7 @@ impl Ctx {
         let inconclusive = self.inconclusive.lock().unwrap();
         let mut coverage = serde_json::Map::new();
         coverage.insert("evaluations".into(), json!(evaluations));
-        coverage.insert("distinct_nontrivial".into(), json!(all_keys.len()));
+        coverage.insert("distinct_nontrivial".into(), json!(all_keys.len() as u64 + by_construction));
         coverage.insert("rule".into(), json!(*self.rule.lock().unwrap()));
         coverage.insert("samples".into(), Value::Array(samples));
         coverage.insert("sub_checks".into(), Value::Object(per_sub));
@@ -959,7 +980,7 @@ impl Ctx {
             self.tier.name(),
             self.seed,
             evaluations,
-            all_keys.len(),
+            all_keys.len() as u64 + by_construction,
             failures.len(),
             wall,
             code
